@@ -4,6 +4,8 @@
            occupancy typestate (size describes exactly the initialised slots), for every public
            entry, through callee summaries
   OCC(ii)  every public entry returns in state `balanced`;  OCC(iii) loop heads have one state
+  OCC(iv)  a closure handed to code outside the crate keeps the typestate balanced across invocations
+           whenever the driver runs user code between them (closure_balance)
   GUARD1   write_uninit_slice_cloned: the Guard is live at every clone, is forgotten only after
            the loop, and its Drop destroys dst[..initialized]
   RO1      comparison / ordering / hashing / formatting impls cannot write the buffer
@@ -99,6 +101,7 @@ def run_occ(ctx, prog, cfg, rule):
                   "public entry returns with the buffer in state %s: %s" % (bad_out, "; ".join(STATE_TEXT[s] for s in bad_out)),
                   "all normal returns in state balanced", cfg,
                   nontrivial=bool(effects.get(prog).callees(f.short)))
+    closure_balance(ctx, prog, cfg, rule, O)
     # count evaluated user sites (each evaluated in every state reaching it)
     for (short, st), (outs, viol) in O.memo.items():
         f = prog.fns[short]
@@ -120,6 +123,76 @@ def run_occ(ctx, prog, cfg, rule):
         ctx.check(outs == want, rule, short, "summary from %s" % st, prog.fn(short).loc,
                   "bookkeeping helper `%s` entered in state %s leaves states %s, expected %s" % (short, st, sorted(outs), sorted(want)),
                   "summary %s -> %s" % (st, sorted(outs)), cfg)
+
+
+
+_USER_DRIVER = None
+
+
+def _driver_runs_user_code(tyargs):
+    """do the type arguments of a foreign call (closure names removed) name something whose code the crate's user
+    chose: an associated-type projection (`<I as IntoIterator>::IntoIter`), a type parameter other than the element
+    type / the capacities, or a cloning adapter over the element type"""
+    import re
+
+    txt = " ".join(re.sub(r"\{closure:[^{}]*(\{closure#\d+\})+\}", "", a) for a in tyargs)
+    if re.search(r"<[A-Z][A-Za-z0-9_]* as ", txt) or "::Cloned<" in txt or "::cloned::" in txt:
+        return True
+    txt = txt.replace("MaybeUninit", "").replace("CircularBuffer", "")
+    params = set(re.findall(r"(?<![A-Za-z0-9_:])([A-Z][A-Za-z0-9_]*)(?![A-Za-z0-9_:<])", txt))
+    return bool(params - {"T", "N", "M", "U"})
+
+
+def closure_balance(ctx, prog, cfg, rule, O):
+    """OCC(iv): a closure of the crate that is handed to code outside the crate (an iterator adapter, a std
+    combinator that was not desugared) is invoked at points and as often as that code decides. Every such closure
+    is evaluated from `balanced` and from every state its own invocations can leave behind; user code inside it
+    must only run in `balanced`, and when the driver itself runs user code between invocations (a user iterator's
+    `next`, `T::clone` of a cloning adapter) each invocation must return in `balanced`."""
+    closures = {f.rec.get("path"): f for f in prog.fns.values() if f.has_mir and "{closure#" in f.short and f.rec.get("path")}
+    if not closures:
+        return
+    handed = {}  # closure short -> [(holder, block, callee short, driver-is-user)]
+    for h in prog.fns.values():
+        if not h.has_mir:
+            continue
+        for b, t in h.calls(True):
+            if mir.is_local_callee(t):
+                continue
+            fn = mir.callee_of(t)
+            if fn is None:
+                continue
+            tyargs = list(fn.get("args") or [])
+            for path, g in closures.items():
+                tag = "{closure:%s}" % path
+                if any(tag in a for a in tyargs):
+                    handed.setdefault(g.short, []).append((h, b, fn.get("rshort") or fn["short"], _driver_runs_user_code(tyargs)))
+    for short in sorted(handed):
+        g = prog.fns[short]
+        states, todo, viols = {occ.BAL}, [occ.BAL], []
+        while todo:
+            s = todo.pop()
+            outs, v = O.transfer(short, s)
+            viols += v
+            for o in outs:
+                if o not in states:
+                    states.add(o)
+                    todo.append(o)
+        for v in viols:
+            ctx.violate(rule, v["fn"], "iv:%s:user-code@%s:%s" % (short.split("::")[-1], v["state"], _site_name(v["desc"])), v["loc"],
+                        "user code can run (%s) inside a closure handed to %s while the buffer is in state `%s` (%s): if it panics, the buffer %s"
+                        % (v["desc"], handed[short][0][2], v["state"], STATE_TEXT[v["state"]], CONSEQ[v["state"]]), cfg)
+        user_drivers = sorted({(h.short, c) for (h, b, c, u) in handed[short] if u})
+        bad = sorted(states - {occ.BAL})
+        if user_drivers and bad:
+            h, c = user_drivers[0]
+            ctx.violate(rule, short, "iv:closure-unbalanced:%s" % ",".join(bad), g.loc,
+                        "this closure is driven by %s (in %s), which runs user-chosen code between invocations, and an invocation "
+                        "leaves the buffer in state %s: %s. If the driver's user code panics, the buffer %s"
+                        % (c, h, bad, "; ".join(STATE_TEXT[s] for s in bad), "; ".join(CONSEQ[s] for s in bad)), cfg)
+        elif not viols:
+            ctx.ok(rule, short, "iv:closure handed to %s" % ", ".join(sorted({c for (_, _, c, _) in handed[short]})),
+                   "every invocation from states %s: user code only in balanced%s" % (sorted(states), "; returns balanced" if user_drivers else "; driver runs no user code"), cfg)
 
 
 STATE_TEXT = {
